@@ -282,6 +282,20 @@ func vTemplates() []vUpdTemplate {
 		{"SET l[0]=:v REMOVE m.k,b", []string{":v"}, func(p, b vVals) vVals {
 			return vWithout(vWith(vWith(p, "l", vListSet(p["l"], 0, b[":v"])), "m", vDelMember(p["m"], "k")), "b")
 		}},
+		// a list as the assigned value is one element; list_append builds a new list and leaves its operands alone
+		{"SET l[5] = :l", []string{":l"}, func(p, b vVals) vVals { return vWith(p, "l", vListSet(p["l"], 5, b[":l"])) }},
+		{"SET l[0] = :l", []string{":l"}, func(p, b vVals) vVals { return vWith(p, "l", vListSet(p["l"], 0, b[":l"])) }},
+		{"SET c = list_append(l, :l)", []string{":l"}, func(p, b vVals) vVals {
+			return vWith(p, "c", vspec.Val{Kind: "L", L: append(append([]vspec.Val{}, p["l"].L...), b[":l"].L...)})
+		}},
+		{"SET c = list_append(:l, l), d = list_append(:l, l)", []string{":l"}, func(p, b vVals) vVals {
+			nl := vspec.Val{Kind: "L", L: append(append([]vspec.Val{}, b[":l"].L...), p["l"].L...)}
+			return vWith(vWith(p, "c", nl), "d", nl)
+		}},
+		{"SET l = list_append(l, :l), c = list_append(l, :l)", []string{":l"}, func(p, b vVals) vVals {
+			nl := vspec.Val{Kind: "L", L: append(append([]vspec.Val{}, p["l"].L...), b[":l"].L...)}
+			return vWith(vWith(p, "l", nl), "c", nl)
+		}},
 		// clauses in the other order: a right-hand side still reads the pre-update item
 		{"ADD n :n SET c = n", []string{":n"}, func(p, b vVals) vVals { return vWith(vWith(p, "c", p["n"]), "n", vN(p["n"].N+b[":n"].N)) }},
 		{"REMOVE a SET c = a", nil, func(p, b vVals) vVals {
